@@ -1,6 +1,6 @@
 (* S for C10: the SubRip cue grammar as abstract syntax, its meaning (`cues`) and its concrete syntax
    (`print_file`).  Written from the property statement and the SubRip conventions
-   (counter line / "HH(H):MM:SS,mmm --> HH(H):MM:SS,mmm" / 1..n text lines / blank line;
+   (counter line / "HH..:MM:SS,mmm --> HH..:MM:SS,mmm", hours of two or more digits / 1..n text lines / blank line;
    <b> <i> <u> <font color=..> and the brace forms {b} {i} {u} {bold} {italic} {underline}); shares no code with
    Model/SrtReader.v (own digit printing, own white-space and colour tables).
 
@@ -32,7 +32,8 @@ Inductive node :=
 | NFont (c : colspec) (q : quoting) (body : list node)
 | NStray (k : tagk) (sy : syn).              (* a closing tag that closes nothing: encloses nothing *)
 
-Record clock := mkClock { k_h : Z; k_wide : bool; k_m : Z; k_s : Z; k_ms : Z }.
+(* k_hw: the number of digits the hour field is written with (leading zeros as needed) *)
+Record clock := mkClock { k_h : Z; k_hw : nat; k_m : Z; k_s : Z; k_ms : Z }.
 
 Record cue_src := mkCue {
   c_counter : text;        (* the counter line (without terminator) *)
@@ -131,8 +132,11 @@ Definition dec_digits (ds : text) : bool := forallb (fun c => (48 <=? c) && (c <
 Definition dig (n : Z) : Z := 48 + n.
 Definition pad2 (n : Z) : text := [dig (n / 10); dig (n mod 10)].
 Definition pad3 (n : Z) : text := [dig (n / 100); dig ((n / 10) mod 10); dig (n mod 10)].
+(* n in w digits, most significant first *)
+Fixpoint padn (w : nat) (n : Z) : text :=
+  match w with O => [] | S k => padn k (n / 10) ++ [dig (n mod 10)] end.
 Definition print_clock (k : clock) : text :=
-  (if k_wide k then pad3 (k_h k) else pad2 (k_h k)) ++ [58] ++ pad2 (k_m k) ++ [58] ++ pad2 (k_s k) ++ [44] ++ pad3 (k_ms k).
+  padn (k_hw k) (k_h k) ++ [58] ++ pad2 (k_m k) ++ [58] ++ pad2 (k_s k) ++ [44] ++ pad3 (k_ms k).
 
 Definition hexdig (upper : bool) (n : Z) : Z := if n <? 10 then 48 + n else (if upper then 55 else 87) + n.
 Definition hex2 (upper : bool) (n : Z) : text := [hexdig upper (n / 16); hexdig upper (n mod 16)].
@@ -228,9 +232,15 @@ Definition print_file (f : file_src) : text := join_lines (eol (f_crlf f)) (f_fi
 
 (* ------------------------------------------------------------------ the grammar's side conditions *)
 Definition byte_ok (n : Z) : bool := (0 <=? n) && (n <=? 255).
-Definition wf_clock (k : clock) : bool :=
-  (0 <=? k_h k) && (if k_wide k then k_h k <=? 999 else k_h k <=? 99) &&
+(* a clock that can be written: an hour field of two or more digits that holds the hour, minutes and seconds 00-99,
+   milliseconds 000-999 *)
+Definition clock_shape (k : clock) : bool :=
+  (2 <=? k_hw k)%nat && (0 <=? k_h k) && (k_h k <? 10 ^ Z.of_nat (k_hw k)) &&
   (0 <=? k_m k) && (k_m k <=? 99) && (0 <=? k_s k) && (k_s k <=? 99) && (0 <=? k_ms k) && (k_ms k <=? 999).
+(* a clock of the files that must be read: in addition the hour field is no longer than the longest digit string the
+   interpreter converts to a number (CPython: sys.get_int_max_str_digits(), 4 300 unless reconfigured) *)
+Definition max_hour_digits : Z := 4300.
+Definition wf_clock (k : clock) : bool := clock_shape k && (Z.of_nat (k_hw k) <=? max_hour_digits).
 Definition wf_colspec (c : colspec) : bool :=
   match c with
   | CHex6 r g b _ => byte_ok r && byte_ok g && byte_ok b
